@@ -68,7 +68,7 @@ func randSignerList(r *hx.Rng) *blk {
 		for s := r.Pick(0, 1, 1, 1, 2); s > 0; s-- {
 			k.prefixed(func() { // apkSigner
 				k.prefixed(func() { k.b = append(k.b, r.Bytes(r.Pick(0, 1, 4, 9))...) }) // SignedData (raw)
-				k.prefixed(func() { // Signatures
+				k.prefixed(func() {                                                      // Signatures
 					for n := r.Pick(0, 1, 1, 2); n > 0; n-- {
 						k.prefixed(func() {
 							k.u32(uint32(r.Pick(0x0103, 0x0201, 7)))
